@@ -13,6 +13,7 @@ EXPLANATION = (
     "the constant 1000 with checked_mul; Timestamp::duration_since dispatches Os->Os and Tsc->Tsc only, each as "
     "self.duration_since(earlier) in that direction."
     " R11.3 measure_precision: the running minimum starts at the sentinel, is replaced only by a sample that compared Less, zero samples never reach the comparison, the minimum is returned only after a comparison with a measured sample, and Timer::precision caches per kind what measure_precision returned.")
+EXPLANATION += (" R11.4 every per-timer measurement Timer caches in a static (precision, sample-loop overhead, bench overheads) is cached in a slot selected by self.kind().")
 NOT_DECIDED = ["monotonicity / additivity (consequences of the formula, not checked separately)",
                "the precision clause beyond R11.3: that the probing converges on a given uniform-step clock is a run-time matter; R11.3 decides that what is "
                "reported is the smallest non-zero difference observed and never the sentinel"]
@@ -406,6 +407,57 @@ def _r11_3_precision_cache(ctx, prog, crate):
         ctx.check("time::timer::Timer::measure_precision" in names, "R11.3", ["Timer::precision", "is-the-measured-value"], "Timer::precision does not come from measure_precision", pb.where(0))
 
 
+def r11_4(ctx, prog, crate):
+    """The precision reported for a timer is that timer's own: every per-timer measurement that `Timer` caches in a static
+    (precision, sample-loop overhead, bench overheads) is cached in a slot selected by `self.kind()` - with one shared slot
+    the timer asked first would fix the answer for the other kind for the rest of the process (a 1 Hz counter reporting the
+    OS clock's step)."""
+    n = 0
+    for b in prog.lib_bodies(crate):
+        if not b.path.startswith("time::timer::Timer::") or b.kind not in ("Fn", "AssocFn") or b.arg_count < 1:
+            continue
+        if not b.local_ty(1).endswith("time::timer::Timer"):
+            continue
+        for c in b.live_calls():
+            last = c.callee.rsplit("::", 1)[-1]
+            if ("OnceLock" in c.callee or "OnceCell" in c.callee or "LazyLock" in c.callee) and last in ("get_or_init", "get_or_try_init", "get", "set", "force"):
+                srcs = b.prov.op_src(c.args[0])
+                if not any(x.kind in ("const", "static") for x in srcs):
+                    continue      # not a process-wide cache
+                if b.inlined_from(c.bb):
+                    continue      # a spliced copy of a helper: examined in the helper's own body
+                n += 1
+                ctx.saw(b)
+                # the slot: follow the receiver back to `&STATIC[i]` and ask where i comes from
+                by_kind = any(x.kind == "call" and x.a == "time::timer::Timer::kind" for x in srcs)
+                work, seen_l = [c.args[0]], set()
+                while work and not by_kind:
+                    o = work.pop()
+                    if o.get("k") not in ("copy", "move"):
+                        continue
+                    l = o["p"]["l"]
+                    if l in seen_l:
+                        continue
+                    seen_l.add(l)
+                    for d in b.prov.defs.get(l, []):
+                        if d[0] != "S":
+                            continue
+                        rv = d[3]["rv"]
+                        pl = rv.get("p") if rv["k"] in ("ref", "rawptr") else (rv.get("o", {}).get("p") if rv["k"] in ("use", "cast") else None)
+                        if pl is None:
+                            continue
+                        for pr in pl["proj"]:
+                            if pr["k"] == "index":
+                                isrc = b.prov.op_src({"k": "copy", "p": {"l": pr["l"], "proj": []}})
+                                if any(x.kind == "call" and x.a == "time::timer::Timer::kind" for x in isrc):
+                                    by_kind = True
+                        work.append({"k": "copy", "p": {"l": pl["l"], "proj": []}})
+                ctx.check(by_kind, "R11.4", [b.path.rsplit("::", 1)[-1], "cache-slot-per-timer-kind"],
+                          "`%s` caches its measurement in a static that is not selected by self.kind(): the value measured for one timer is "
+                          "reported for the other" % b.path, c.line())
+    ctx.anchor("R11.4", "process-wide caches of per-timer measurements", n, 2)
+
+
 def r11_3(ctx, prog, crate):
     """Structural part of the precision clause (the convergence itself is a run-time matter): Timer::measure_precision
     reports the SMALLEST NON-ZERO step it observed - the running minimum starts at the sentinel FineDuration::MAX, is
@@ -487,6 +539,7 @@ def r11_3(ctx, prog, crate):
 
 
 def run(ctx, prog, crate):
+    r11_4(ctx, prog, crate)
     r11_3(ctx, prog, crate)
     r11_1(ctx, prog, crate)
     r11_2(ctx, prog, crate)
